@@ -135,6 +135,11 @@ def tlc_run(name, root, consts, inv=(), prop=(), view=None, constraint=None, act
     m = re.search(r"(\d+) states generated, (\d+) distinct states found", out)
     if m:
         res["generated"], res["distinct"] = int(m.group(1)), int(m.group(2))
+    if simulate:
+        ms = re.findall(r"Progress: (\d+) states checked, (\d+) traces generated", out)
+        if ms:
+            res["generated"], res["traces"] = int(ms[-1][0]), int(ms[-1][1])
+            res["distinct"] = 0
     m = re.search(r"depth of the complete state graph search is (\d+)", out)
     if m:
         res["depth"] = int(m.group(1))
@@ -476,6 +481,15 @@ def trace_mismatches(rej):
             for f, act in OBS_FACETS.items():
                 if qe[f] != qg[f]:
                     out.append(dict(base, kind="ret", e={"a": act, "p": qg["q"], "E": ev["E"]}, expected=qe[f], got=qg[f]))
+        for i, ok in enumerate(exp.get("vdok", [])):
+            if not ok:
+                out.append(dict(base, kind="ret", e={"a": "ViewDesc", "p": ev["vd"][i]["q"], "E": ev["E"]},
+                                expected="a view addressing exactly the entries under q (ViewAtOK)", got=ev["vd"][i]["d"]))
+        for i, ok in enumerate(exp.get("fdok", [])):
+            if not ok:
+                f = ev["fd"][i]
+                out.append(dict(base, kind="ret", e={"a": "Find", "p": f["q0"], "q": f["q"], "kind": f["kind"], "E": ev["E"]},
+                                expected="a view addressing exactly the entries of the searched view selected by q", got=f["r"]))
         if not out:
             raise ToolError(f"Obs line {rej['line']} rejected although every facet matches")
     elif exp["kind"] == "pair":
